@@ -13,7 +13,7 @@ RULE = ("array level: Fourier grids of 2..40 (quick) / 2..120 (thorough) bins, u
         "in [5, 100]. object level: Signal/AccSignal records of 8..200 (1000) samples with default and custom smoothing frequencies; "
         "bandwidth ratios {0.3, 0.5, 0.707, 0.9, 0.999} (+ 1.0 for the error branch). distinct = hash of (grid, spectrum, targets, "
         "band); non-trivial = at least 2 non-zero-frequency bins and a non-constant spectrum")
-TIE = ("translator-free correspondence: the exact rational kernel Model/Frequency.smoothCore is run on the implementation's own raw "
+TIE = ("translator (the Konno-Ohmachi window expression of both functions is regenerated from eqsig/fns/frequency.py; rfl bridge Props/C07Gen to the model) + correspondence: the exact rational kernel Model/Frequency.smoothCore is run on the implementation's own raw "
        "window values (budget 1e-12), the Float twin of the whole function incl. the window (sin/log10 from libm) within 1e-9; "
        "bandwidth functions exactly")
 NOT_PROVED = ["log10 / sin rounding of the window (Float twin vs impl, measured)",
@@ -26,6 +26,8 @@ BANDS = [5, 20, 40, 100]
 # ------------------------------------------------------------------------------------------------
 # independent window
 # ------------------------------------------------------------------------------------------------
+
+PROP_MODULES = ['C07', 'C07Gen']
 
 def ko_weight(band, f, fc):
     x = band * math.log10(f / fc)
@@ -114,6 +116,10 @@ def array_case(ctx, kind, fr_, A, sm, band, small):
     if rs[0] != 'ok' or rm[0] != 'ok':
         ctx.oracle('C07 smoothing returns on its domain (positive target frequencies)', False, inputs, detail=[rs[0], rm[0]])
         return
+    real_ok = not np.iscomplexobj(np.asarray(rs[1])) and not np.iscomplexobj(np.asarray(rm[1]))
+    ctx.oracle('C07.b smoothed amplitudes and weights are real numbers', real_ok, inputs)
+    if not real_ok:
+        return
     s = np.asarray(rs[1], dtype=float)
     M = np.asarray(rm[1], dtype=float)
     on_grid = [j for j, fc in enumerate(smv) if fc in set(fs.tolist())]
@@ -143,6 +149,9 @@ def array_case(ctx, kind, fr_, A, sm, band, small):
     ctx.oracle('C07.b one smoothed value per target frequency', s.shape == (len(smv),), inputs, detail={'shape': list(s.shape)})
     ctx.oracle('C07.c smoothed spectrum is finite (also when a target coincides with a Fourier frequency)', bool(np.all(np.isfinite(s))), inputs,
                facts=facts)
+    ctx.oracle('C07.c weights are finite (also when a target coincides with a Fourier frequency)', bool(np.all(np.isfinite(M))), inputs, facts=facts)
+    if not (np.all(np.isfinite(s)) and np.all(np.isfinite(M))):
+        return
     if len(Ap) and s.shape == (len(smv),):
         lo, hi = float(Ap.min()), float(Ap.max())
         eps = 1e-12 * max(hi, 1e-300)
@@ -213,7 +222,10 @@ def object_case(ctx, kind, v, dt, sm, band, cls_name):
     ctx.oracle('C07.b Signal.smooth_fa_spectrum == calc_smooth_fa_spectrum == matrix form', s_obj.shape == s_arr.shape == s_mat.shape and
                bool(np.all(np.abs(s_obj - s_arr) <= 1e-12 * scale) and np.all(np.abs(s_mat - s_arr) <= 1e-12 * scale)), inputs,
                detail={'max_dev_obj': float(np.max(np.abs(s_obj - s_arr))) if s_obj.shape == s_arr.shape and s_arr.size else None})
-    ctx.oracle('C07.c smoothed spectrum is finite (object level)', bool(np.all(np.isfinite(s_obj))), inputs)
+    ok_real = not np.iscomplexobj(s_obj) and bool(np.all(np.isfinite(s_obj)))
+    ctx.oracle('C07.c smoothed spectrum is real and finite (object level)', ok_real, inputs)
+    if not ok_real:
+        return
     if len(fa_s) > 1:
         lo, hi = float(np.abs(fa_s[1:]).min()), float(np.abs(fa_s[1:]).max())
         ctx.oracle('C07.b min|A| <= smooth_j <= max|A| (object level)', bool(np.all(s_obj >= lo - 1e-12 * scale) and np.all(s_obj <= hi + 1e-12 * scale)), inputs)
